@@ -875,6 +875,37 @@ def probe_magic_rule(chk, prog):
     return n
 
 
+PARTIAL_RESET = {"inflateResetKeep": "inflateReset", "deflateResetKeep": "deflateReset"}
+
+
+def full_reset_rule(chk, prog):
+    """K3-fullreset (who-may-call): between two members of a compressed stream, and between two blocks, the codec starts
+    from nothing.  The library calls that restart a stream but keep its history window (inflateResetKeep,
+    deflateResetKeep) are not used anywhere: with them a member can refer to the bytes of the member before it, and a
+    crafted or damaged member that does so is unpacked instead of being refused."""
+    n = 0
+    restarts = 0
+    for f in prog.functions():
+        if f.decl or "/test/" in f.unit.src:
+            continue
+        for c in f.build().calls():
+            nm = norm_callee(c.callee) if c.callee else None
+            if nm in PARTIAL_RESET:
+                n += 1
+                chk.analysed(f)
+                chk.violation("K3-fullreset", "%s:%s@%d" % (f.name, nm, c.line), c, "%s keeps the history window of the stream that just "
+                              "ended: the next member (or block) is unpacked against the previous one's bytes; %s starts from "
+                              "nothing" % (nm, PARTIAL_RESET[nm]))
+            elif nm in PARTIAL_RESET.values():
+                restarts += 1
+                n += 1
+                chk.analysed(f)
+                chk.ok("K3-fullreset", "%s:%s@%d" % (f.name, nm, c.line), c, "full reset")
+    if restarts == 0:
+        chk.broke("K3-fullreset: no zlib stream is restarted with inflateReset/deflateReset any more")
+    return n
+
+
 def probe_rule(chk, prog):
     """K12-probe: compressed input is recognised whatever its length.  In the function that sniffs the input and wraps it
     in a decompressing stream, no condition on the number of bytes the peek delivered stands between the peek and the
@@ -889,6 +920,12 @@ def probe_rule(chk, prog):
             continue
         f.build()
         wraps = [c for c in f.calls() if norm_callee(c.callee) in ("istream_xfrm_create", "decompressor_stream_create")]
+        if not wraps:
+            # the sniffing may sit in a static helper of the function that wraps the stream
+            for cs in prog.callers_of(f):
+                if cs.fn.unit is f.unit:
+                    wraps += [c for c in cs.fn.build().calls()
+                              if norm_callee(c.callee) in ("istream_xfrm_create", "decompressor_stream_create")]
         if not wraps:
             continue
         for d in det:
@@ -948,6 +985,8 @@ def run(chk):
     probe_rule(chk, prog)
     probe_magic_rule(chk, prog)
     chk.floor("K12-probemagic", 1)
+    full_reset_rule(chk, prog)
+    chk.floor("K3-fullreset", 2)
     chk.floor("K12-probe", 1)
     pending_invariant_rule(chk, load_program("sqfs2tar"))
     truncated_rule(chk, prog)
